@@ -3,23 +3,21 @@ pub fn convert_int<const B: Word>(&self, n: IBig) -> Rounded<FBig<R, B>>
 /*@
     requires
         B >= 2,
-        // exponent range: exponent + digits of the normalized integer must be representable (overflow of isize is
-        // outside this contract)
-        ndigits(B as int, n.v()) <= isize::MAX,
+        // resource limit: exponent overflow is a documented panic (C16), not modelled (room for the exponent of the
+        // normalized integer in `Repr::new`, bit position of the split in `repr_round`)
+        pos_room(ndigits(B as int, n.v()) as int),
     ensures
         // C06/C10: ONE correct rounding (mode R) of the integer n = n * B^0 to `precision` digits (0 = unlimited):
-        // Exact iff n has at most `precision` significant digits, truthful flag (lib/farith_lemmas.rs round_val)
-        round_val(R::md(), B as int, self.precision, n.v(), 0, map_repr(ret)),
-        rd_val(ret).context == *self,
-        // an integer never gets a negative exponent; zero is (0, 0)
-        tf_int_repr(rd_val(ret).repr),
+        // Exact iff n has at most `precision` significant digits, truthful flag; context kept; an exact result has a
+        // non-negative exponent (lib/tf_lemmas.rs tf_conv_post)
+        tf_conv_post(R::md(), B as int, n.v(), *self, ret),
 @*/
 {
         /*@ broadcast use round_int_axioms, ax_ndigits; @*/
         let repr = Repr::<B>::new(n, 0);
         /*@ proof {
             assert(norm_of(B as int, n.v(), 0, repr.significand.v(), repr.exponent as int));
-            lemma_norm_of(B as int, n.v(), 0, repr.significand.v(), repr.exponent as int);
+            lemma_tf_conv_room(B as int, n.v(), repr.significand.v(), repr.exponent as int);
         } @*/
         self.repr_round(repr).map(|v| /*@ -> (r: FBig<R, B>) ensures r.repr == v, r.context == *self @*/ FBig::new(v, *self))
         /*@ proof {
